@@ -100,14 +100,28 @@ pub fn run(env: &mut Env) -> Outcome {
                     srv.send_data_pdu("control-other", 0x14, &build::control_payload(a, 0, 0))
                 }
                 5 => srv.send_data_pdu("font-map", 0x28, &build::font_map_payload()),
-                6 => srv.send_data_pdu("set-error-info", 0x2f, &build::set_error_info_payload(0x0000000c)),
+                6 => {
+                    // inside the active window a server may pack another PDU into the same payload: a harmless one
+                    // in front of or behind the letter changes nothing for the automaton
+                    srv.send_data_pdu("set-error-info", 0x2f, &build::set_error_info_payload(0x0000000c))
+                }
                 7 => {
                     let mut w = Wr::new();
                     w.u32le("ssi.infoType", 0).bytes("ssi.data", &[0u8; 12]);
                     let t = *ctxrc.borrow_mut().pick("unknown_type2", &[0x26u8, 0x36, 0x37, 0x22, 0x29]);
                     srv.send_data_pdu("unknown-data-pdu", t, &w)
                 }
-                8 => srv.send_deactivate_all(),
+                8 => {
+                    if states == vec![St::Active] && ctxrc.borrow_mut().chance("coalesce_deactivate", 1, 3) {
+                        let sid = srv.current_share_id;
+                        let other = build::share_data_raw(&srv.p, sid, 0x2f, &build::set_error_info_payload(0));
+                        let dea = build::deactivate_all_raw(&srv.p, sid);
+                        if ctxrc.borrow_mut().chance("deactivate_last", 1, 2) { srv.send_coalesced("error-info+deactivate-all", &[other, dea]); } else { srv.send_coalesced("deactivate-all+error-info", &[dea, other]); }
+                        ctxrc.borrow_mut().probe("coalesced_deactivate_all");
+                    } else {
+                        srv.send_deactivate_all()
+                    }
+                }
                 9 => {
                     let (u, r) = { let mut ctx = ctxrc.borrow_mut(); crate::scen::c10::gen_fastpath_pdu(&mut ctx, 300, true) };
                     sent_rects = r.len();
